@@ -493,7 +493,7 @@ Proof.
       * intros y Hy. rewrite rget_rtake. destruct (N.ltb_spec y k); [|lia]. rewrite R2 by lia. reflexivity.
       * repeat split; auto.
     + (* the range includes the blob's last tract *)
-      assert (He : n <= e) by lia. assert (c = n - start) by lia. subst c.
+      assert (He : n <= e) by lia. assert (Hcc : c = n - start) by lia. rewrite Hcc in H. clear Hcc Gc Hpad Hc0.
       assert (Hnl : (n - 1) * tl < o + k).
       { assert ((n - 1) * tl <= (e - 1) * tl) by (apply N.mul_le_mono_r; lia). lia. }
       destruct (read_tracts_specN tl (tracts st) k o false Htl (n - start) start (n - 1)) as (R1 & R2 & R3); try lia.
@@ -526,6 +526,9 @@ Proof.
           destruct (N.ltb_spec y (N.max (N.max o ((n - 1) * tl)) len - o)); [|lia]. rewrite R2 by lia. reflexivity. }
         split; [|repeat split; auto].
         destruct (N.ltb_spec len (o + k)); [|lia].
+        assert (Hntl : (n - 1) * tl + tl = n * tl).
+        { replace (n * tl) with ((n - 1 + 1) * tl) by (f_equal; lia). lia. }
         destruct (N.eqb_spec (rlen (tracts st (n - 1))) tl); [lia|].
         rewrite andb_false_r, andb_false_l, andb_false_r. reflexivity.
 Qed.
+
